@@ -630,6 +630,41 @@ def _env_sweep(job):
     return {"n": len(cfgs), "fails": out}
 
 
+def _style_sweep(job):
+    """Equal parameters written another way (all keywords; defaults omitted; integral costs as ints;
+    costs as numpy.float64): the stream must be the same, each construction in a fresh child."""
+    cfgs = job
+    g = Golden()
+    out = []
+    n = 0
+    try:
+        for cfg in cfgs:
+            want = g.get(cfg)
+            for st in ("kw", "dflt") + (("ci", "npf") if "c8" in cfg else ()):
+                n += 1
+                got = g.get(dict(cfg, style=st))
+                if got != want:
+                    i = next((j for j in range(min(len(got), len(want))) if got[j] != want[j]), min(len(got), len(want)))
+                    out.append({"cfg": cfg, "style": st, "variant": C.variant(cfg),
+                                "detail": "%s: stream differs at action %d when the same parameters are passed another way (%s)" % (
+                                    C.describe(cfg), i + 1, C.STYLES[st])})
+                    break
+    finally:
+        g.close()
+    return {"n": n, "fails": out}
+
+
+def style_box(tier):
+    seen = set()
+    out = []
+    for c in list(C.call_style_box(tier)) + pair_base("quick"):
+        c = {k: v for k, v in c.items() if k != "style"}
+        if C.key(c) not in seen:
+            seen.add(C.key(c))
+            out.append(c)
+    return out
+
+
 def pair_base(tier):
     N = 6 if tier == "quick" else 9
     base = []
@@ -671,6 +706,11 @@ def pair_box(tier):
 
 def check_witness(data, show=False):
     w = data["witness"]
+    if "style" in w:
+        r = _style_sweep([w["cfg"]])
+        if show:
+            print("replaying %s in every call style" % C.describe(w["cfg"]))
+        return [((f["variant"], "call-style-dependent"), {"cfg": f["cfg"], "style": f["style"]}, f["detail"], "env") for f in r["fails"]]
     if "hashseed" in w:
         r = _env_sweep([w["cfg"]])
         if show:
@@ -737,6 +777,14 @@ def run(prop, args):
         rep.evaluations += part["n"]
         for f in part["fails"]:
             rep.add_violation((f["variant"], "hash-seed-dependent"), {"cfg": f["cfg"], "hashseed": f["hashseed"]}, f["detail"], kind="env")
+    sbase = style_box(tier)
+    nstyle = 0
+    for part in R.pmap(_style_sweep, R.chunks(sbase, max(1, len(sbase) // 32 + 1)), chunksize=1):
+        nstyle += part["n"]
+        for f in part["fails"]:
+            rep.add_violation((f["variant"], "call-style-dependent"), {"cfg": f["cfg"], "style": f["style"]}, f["detail"], kind="env")
+    rep.evaluations += nstyle
+    rep.extra["call_style_sweep"] = {"configs": len(sbase), "constructions_compared": nstyle, "styles": C.STYLES}
     rep.extra["hash_seed_sweep"] = {"configs": len(ebase), "PYTHONHASHSEED": ["0 (the run's own)"] + list(HASH_SEEDS)}
     for A, B in pairs:
         if (A["cls"] in SHARE_A or A["cls"] in SHARE_B):
@@ -746,6 +794,10 @@ def run(prop, args):
     R.run_regress(rep, check_witness)
 
     def shrink(b, w):
+        if "style" in w:
+            small = C.shrink(w["cfg"], lambda c: bool(_style_sweep([c])["fails"]))
+            f = _style_sweep([small])["fails"]
+            return ({"cfg": small, "style": f[0]["style"]}, f[0]["detail"]) if f else None
         if "hashseed" in w:
             small = C.shrink(w["cfg"], lambda c: bool(_env_sweep([c])["fails"]))
             f = _env_sweep([small])["fails"]
